@@ -6,11 +6,13 @@ LSFScriptAdapter, LocalScriptAdapter and FluxScriptAdapter (the real
 absent `flux` Python module is replaced by a stub broker handle that only
 answers `attr_get("version")`) and the Gallina models Sched/Header.v +
 Sched/Launcher.v, plus the monitor `C15_ok` of Sched/Readers.v (the predicate
-Props/C15.v proves of the model) evaluated on the IMPLEMENTATION's scripts:
-the directive reader applied to the real header returns exactly the effective
-resources, no launcher token survives, every replacement reads back to the
-requested counts, over-allocations are rejected with a diagnostic and only
-then, a step with neither nodes nor procs is local with its command verbatim.
+Props/C15.v proves of the model, for all four back-ends) evaluated on the
+IMPLEMENTATION's scripts: the directive reader (sbatch / bsub / flux info
+lines) applied to the real header returns exactly the effective resources, no
+launcher token survives, every replacement reads back (srun / jsrun / flux
+run) to the requested counts, over-allocations are rejected with a diagnostic
+and only then, a step with neither nodes nor procs is local with its command
+verbatim, and never an internal error inside the domain H15.
 Everything on the model side runs inside Coq (vm_compute over cases files).
 
 A case = back-end, batch block (keyword arguments of the adapter), step name,
@@ -655,6 +657,16 @@ def evaluate(ck, cases, impl, tag, count=True):
             ck.sample({"case": strip_case(c), "impl": o})
     for e in errs:
         ck.mismatch("coqc failed on a C15 cases file", None, e[1])
+    if count:
+        # how many cases lie inside the hygiene domain H15 (where the theorems speak)
+        lits = literals(cases, obs)
+        ind, e2 = common.coq_failing(tag + "-dom", HEADER, "case * obs", "(fun co => negb (H15 (fst co)))", lits)
+        if not e2:
+            dom = ck.cov.setdefault("in_domain_H15", {})
+            for i in ind:
+                k = cases[i]["backend"] + ":" + cases[i]["stream"]
+                dom[k] = dom.get(k, 0) + 1
+            dom["total"] = dom.get("total", 0) + len(ind)
     findings = []
     for i in bad:
         d = detail.get(i)
@@ -714,7 +726,6 @@ def run(ck):
             "write_script vs model (script text, name, restart, to_be_scheduled, exception class) and C15_ok on the "
             "real script, both evaluated inside Coq. Non-trivial = scheduled step with a launcher token or >2 "
             "resource keys; distinct = (back-end, typed resource keys, batch keys, token forms, outcome)." % ncorpus)
-        ck.cov["in_domain_H15"] = None
 
         def search():
             r2 = random.Random(ck.seed + 7919)
